@@ -129,8 +129,11 @@ StickyDenies(st, dir, victim) ==
 WErr(e) == [err |-> e, par |-> <<>>, parn |-> <<>>, id |-> 0, name |-> "", nm |-> <<>>]
 WOk(par, parn, id, name) == [err |-> "ok", par |-> par, parn |-> parn, id |-> id, name |-> name, nm |-> Append(parn, name)]
 
-RECURSIVE Walk(_, _, _, _, _, _)
-Walk(st, stk, nstk, parts, follow, bud) ==
+\* seen: the <<directory, remaining path>> configurations at which a link was already followed. Resolution is
+\* deterministic, so meeting one again means the walk would go round until the budget is used up: the
+\* outcome is ELOOP whatever the budget (this only shortens the evaluation, not the meaning).
+RECURSIVE WalkS(_, _, _, _, _, _, _)
+WalkS(st, stk, nstk, parts, follow, bud, seen) ==
     IF parts = <<>>
     THEN [err |-> "ok", par |-> Front(stk), parn |-> IF nstk = <<>> THEN <<>> ELSE Front(nstk),
           id |-> Last(stk), name |-> "", nm |-> nstk]
@@ -140,10 +143,10 @@ Walk(st, stk, nstk, parts, follow, bud) ==
         top == Last(stk)
         d == st.ino[top] IN
     IF ~May(st, top, 1) THEN WErr("EACCES")
-    ELSE IF c = "." \/ c = "" THEN Walk(st, stk, nstk, rest, follow, bud)
+    ELSE IF c = "." \/ c = "" THEN WalkS(st, stk, nstk, rest, follow, bud, seen)
     ELSE IF c = ".." THEN
-        IF Len(stk) > 1 THEN Walk(st, Front(stk), Front(nstk), rest, follow, bud)
-        ELSE Walk(st, stk, nstk, rest, follow, bud)
+        IF Len(stk) > 1 THEN WalkS(st, Front(stk), Front(nstk), rest, follow, bud, seen)
+        ELSE WalkS(st, stk, nstk, rest, follow, bud, seen)
     ELSE IF c \notin DOMAIN d.ent THEN
         IF rest = <<>> THEN WOk(stk, nstk, 0, c)
         ELSE WErr("ENOENT")
@@ -152,16 +155,18 @@ Walk(st, stk, nstk, parts, follow, bud) ==
         n == st.ino[id] IN
     IF n.k = "dir" THEN
         IF rest = <<>> THEN WOk(stk, nstk, id, c)
-        ELSE Walk(st, Append(stk, id), Append(nstk, c), rest, follow, bud)
+        ELSE WalkS(st, Append(stk, id), Append(nstk, c), rest, follow, bud, seen)
     ELSE IF n.k = "file" THEN
         IF rest = <<>> THEN WOk(stk, nstk, id, c)
         ELSE WErr("ENOTDIR")
     ELSE \* symbolic link
         IF rest = <<>> /\ ~follow THEN WOk(stk, nstk, id, c)
-        ELSE IF bud = 0 THEN WErr("ELOOP")
+        ELSE IF bud = 0 \/ <<top, parts>> \in seen THEN WErr("ELOOP")
         ELSE IF n.tgt.parts = <<>> /\ ~n.tgt.abs THEN WErr("ENOENT")
-        ELSE Walk(st, IF n.tgt.abs THEN <<Root>> ELSE stk, IF n.tgt.abs THEN <<>> ELSE nstk,
-                  n.tgt.parts \o rest, follow, bud - 1)
+        ELSE WalkS(st, IF n.tgt.abs THEN <<Root>> ELSE stk, IF n.tgt.abs THEN <<>> ELSE nstk,
+                   n.tgt.parts \o rest, follow, bud - 1, seen \cup {<<top, parts>>})
+
+Walk(st, stk, nstk, parts, follow, bud) == WalkS(st, stk, nstk, parts, follow, bud, {})
 
 IsEmptyPath(p) == ~p.abs /\ p.parts = <<>>
 
@@ -195,7 +200,9 @@ Resolve(st, p, follow, bud) ==
     ELSE IF p.abs THEN Walk(st, <<Root>>, <<>>, p.parts, follow, bud)
     ELSE Walk(st, st.cwd, st.cwdn, p.parts, follow, bud)
 
-Res(st, p, follow) == Resolve(st, p, follow, KernelLinkBudget)
+\* the budget of symbolic links a path resolution may follow is carried in the state (st.lb for the
+\* kernel-backed calls, st.elb for EvalSymlinks) so that the deviation catalogue can vary it
+Res(st, p, follow) == Resolve(st, p, follow, st.lb)
 
 \* the full stack of a resolved directory (itself included)
 StackOf(r) == Append(r.par, r.id)
@@ -241,7 +248,7 @@ MkdirF(st, c, followFinal, bud) ==
     ELSE IF ~MayWX(st, Last(r.par)) THEN Fail("EACCES", st)
     ELSE Ok(CreateDirIn(st, Last(r.par), r.name, c.perm))
 
-Mkdir(st, c) == MkdirF(st, c, FALSE, KernelLinkBudget)
+Mkdir(st, c) == MkdirF(st, c, FALSE, st.lb)
 
 \* os.MkdirAll: Stat; parents first; Mkdir; tolerate "already a directory".
 RECURSIVE MkdirAllR(_, _, _, _)
@@ -290,7 +297,7 @@ OpenCoreF(st, c, followExcl, bud) ==
           st |-> IF HasFlag(c, "TRUNC") THEN [st EXCEPT !.ino[r.id].data = <<>>] ELSE st,
           id |-> r.id]
 
-OpenCore(st, c) == OpenCoreF(st, c, FALSE, KernelLinkBudget)
+OpenCore(st, c) == OpenCoreF(st, c, FALSE, st.lb)
 
 OpenClose(st, c) == LET o == OpenCore(st, c) IN [res |-> o.res, st |-> o.st]
 
@@ -571,7 +578,7 @@ ReadFile(st, c) ==
 
 \* filepath.EvalSymlinks on an absolute path: the link-free absolute path of the object
 EvalSymlinks(st, c) ==
-    LET r == Resolve(st, c.p, TRUE, EvalLinkBudget) IN
+    LET r == Resolve(st, c.p, TRUE, st.elb) IN
     IF r.err # "ok" THEN Fail(r.err, st)
     ELSE IF r.id = 0 THEN Fail("ENOENT", st)
     ELSE Ret([R0 EXCEPT !.path = [abs |-> TRUE, parts |-> NamesOf(r)]], st)
@@ -622,7 +629,8 @@ NsApply(st, c) ==
 InitSt ==
     [ino |-> (Root :> [MkNode("dir", 493, 0, 0) EXCEPT !.ent = ("w" :> 2)]) @@ (2 :> MkNode("dir", 493, 0, 0)),
      next |-> 3, cwd |-> <<Root>>, cwdn |-> <<>>,
-     uid |-> 0, gid |-> 0, grps |-> {}, umask |-> 18, h |-> <<>>, tmpn |-> 0]
+     uid |-> 0, gid |-> 0, grps |-> {}, umask |-> 18, h |-> <<>>, tmpn |-> 0,
+     lb |-> KernelLinkBudget, elb |-> EvalLinkBudget]
 
 \* all <<path, id>> pairs below directory id
 RECURSIVE PathsBelow(_, _, _, _)
